@@ -258,9 +258,15 @@ fn calculate_new_withdraw_rate(
         if slashed_amount.0.u128() != 0u128 {
             slashed_amount_of_batch += Uint256::one();
         }
-        actual_unbonded_amount_of_batch = Uint256::from(
-            SignedInt::from_subtraction(unbonded_amount_of_batch, slashed_amount_of_batch).0,
-        );
+        // the rounding unit above can exceed what a dust batch is worth: such a batch is worth
+        // nothing (taking the magnitude of the negative difference would raise its rate instead)
+        let remaining =
+            SignedInt::from_subtraction(unbonded_amount_of_batch, slashed_amount_of_batch);
+        actual_unbonded_amount_of_batch = if remaining.1 {
+            Uint256::zero()
+        } else {
+            Uint256::from(remaining.0)
+        };
     }
 
     // Calculate the new withdraw rate
